@@ -45,7 +45,8 @@ Proof.
     + destruct (possession_proved f); [discriminate|]. destruct skip; [destruct (s_sig_intact f)|]; discriminate.
     + destruct (possession_proved f); discriminate.
   - destruct (late_abort_not_tls13 _ _ _ _ _ E) as [K ->].
-    destruct (server_judges mode k c) as [|a2 b2 cd2] eqn:S; cbn [client_completes]; [discriminate|].
+    destruct (server_judges mode k c) as [|a2 b2 cd2] eqn:S; cbn [client_completes].
+    { destruct k; try discriminate. destruct (requests_client_cert mode && c_presents c); discriminate. }
     pose proof (server_judges_client_done _ _ _ _ _ _ K S) as ->.
     destruct k; try discriminate. destruct (a2 =? AlertBadCertificate); discriminate.
 Qed.
@@ -73,7 +74,8 @@ Theorem server_complete_needs_client_acceptance skip k f mode c :
   server_completes (handshake skip k f mode c) = true -> client_judges skip k f = Done.
 Proof.
   unfold handshake. destruct (client_judges skip k f) as [|a b cd]; [reflexivity|].
-  destruct b; [discriminate|]. destruct (server_judges mode k c) as [|a2 b2 cd2]; [discriminate|].
+  destruct b; [discriminate|]. destruct (server_judges mode k c) as [|a2 b2 cd2].
+  { destruct k; try discriminate. destruct (requests_client_cert mode && c_presents c); discriminate. }
   destruct k; try discriminate. destruct (a2 =? AlertBadCertificate); discriminate.
 Qed.
 
